@@ -65,6 +65,10 @@ def battery(m):
             plo, phi = (min(pts), max(pts) + 1)
             out.append({"op": "lookup", "scope": l, "method": meth, "q": [plo, phi, 1]})
             out.append({"op": "lookup", "scope": l, "method": meth, "q": [plo, phi, 3]})
+            # "any lookup": a descending range is outside C05/C06/C13 (no scan judges it), but its
+            # answer must not depend on earlier lookups either
+            out.append({"op": "lookup", "scope": l, "method": meth, "q": [phi, plo - 1, -1]})
+            out.append({"op": "lookup", "scope": l, "method": meth, "q": [phi, plo - 1, -2]})
     return out
 
 
